@@ -1,1 +1,1294 @@
-fn main() {}
+//! C16 — QUIC streams and datagrams: ordered, exactly-once, never stranded (DESIGN §3 C16).
+//!
+//! One compio runtime per case, a server and a client endpoint on loopback.  Every activity
+//! (stream writer, stream reader, accept loop, datagram sender/receiver, probe future) is an
+//! *actor*: a boxed future polled by the harness future itself with its own flag waker, so the
+//! harness knows at every instant which futures are pending and can re-poll them as a redundant
+//! stimulus (rescue rule).  Nothing is judged by timing alone.
+mod case;
+
+use std::{
+    cell::{Cell, RefCell},
+    collections::HashMap,
+    future::Future,
+    pin::Pin,
+    rc::Rc,
+    sync::{
+        atomic::{AtomicBool, Ordering},
+        Arc, Mutex,
+    },
+    task::{Context, Poll, Wake, Waker},
+    time::Duration,
+};
+
+use bytes::Bytes;
+use case::*;
+use compio_io::{AsyncRead, AsyncWrite, AsyncWriteExt};
+use compio_quic::{ClientBuilder, Connection, ConnectionError, Endpoint, RecvStream, SendStream, ServerBuilder, TransportConfig, VarInt};
+use rustls::pki_types::{pem::PemObject, CertificateDer, PrivateKeyDer};
+use vcore::{Outcome, Part, Session};
+
+// ------------------------------------------------------------------------------------------------
+// actors
+
+struct Flag {
+    set: AtomicBool,
+    main: Mutex<Option<Waker>>,
+}
+
+impl Wake for Flag {
+    fn wake(self: Arc<Self>) {
+        self.wake_by_ref()
+    }
+
+    fn wake_by_ref(self: &Arc<Self>) {
+        self.set.store(true, Ordering::SeqCst);
+        if let Some(w) = self.main.lock().unwrap().as_ref() {
+            w.wake_by_ref();
+        }
+    }
+}
+
+#[derive(Debug, Clone, Copy, PartialEq, Eq, Hash, PartialOrd, Ord)]
+enum Kind {
+    Handshake,
+    Writer,
+    Reader,
+    OpenWait,
+    Accept,
+    DgramSend,
+    RecvDatagram,
+    Stopped,
+    Closed,
+    ReceivedReset,
+    IdleRead,
+    BlockedWrite,
+    Timer,
+}
+
+impl Kind {
+    fn name(self) -> &'static str {
+        match self {
+            Kind::Handshake => "handshake",
+            Kind::Writer => "write",
+            Kind::Reader => "read",
+            Kind::OpenWait => "open_wait",
+            Kind::Accept => "accept",
+            Kind::DgramSend => "send_datagram_wait",
+            Kind::RecvDatagram => "recv_datagram",
+            Kind::Stopped => "stopped",
+            Kind::Closed => "closed",
+            Kind::ReceivedReset => "received_reset",
+            Kind::IdleRead => "read(idle)",
+            Kind::BlockedWrite => "write(blocked)",
+            Kind::Timer => "timer",
+        }
+    }
+}
+
+/// How an actor ended.
+#[derive(Debug, Clone)]
+enum End {
+    /// completed normally
+    Done,
+    /// completed with a connection-level error of this family (only legitimate after a close)
+    ConnErr(String),
+    /// the oracle is violated (signature tail, detail)
+    Bad(String, String),
+}
+
+type ActorFut = Pin<Box<dyn Future<Output = End>>>;
+
+struct Actor {
+    name: String,
+    side: usize,
+    /// what the actor is doing right now (actors move from open_wait to write to stopped …)
+    kind: Rc<Cell<Kind>>,
+    fut: Option<ActorFut>,
+    flag: Arc<Flag>,
+    end: Option<End>,
+    polls: u64,
+    /// completed only by the redundant re-poll of the rescue rule
+    rescued: bool,
+}
+
+// ------------------------------------------------------------------------------------------------
+// shared context
+
+#[derive(Clone)]
+enum Entry {
+    Spec(usize),
+    ProbeIdle,
+    ProbeBlocked,
+    /// opened to exhaust the stream credit and never written; finished empty if its holder is dropped
+    ProbeHeld,
+}
+
+struct Ctx {
+    case: QCase,
+    conns: RefCell<[Option<Connection>; 2]>,
+    /// (opener side, bidi, stream index) -> what the acceptor should do with it
+    table: RefCell<HashMap<(usize, bool, u64), Entry>>,
+    spawn: RefCell<Vec<(String, usize, Rc<Cell<Kind>>, ActorFut)>>,
+    bytes_read: Cell<u64>,
+    /// per spec: bytes the reader verified; response bytes the opener verified
+    got: RefCell<Vec<[u64; 2]>>,
+    complete: RefCell<Vec<[bool; 2]>>,
+    dgrams_ok: Cell<[u64; 2]>,
+    closed_seen: Cell<bool>,
+    /// probe streams opened / taken up by the peer's accept loop
+    probe_streams: Cell<[u32; 2]>,
+    main: Arc<Flag>,
+}
+
+impl Ctx {
+    fn conn(&self, side: usize) -> Connection {
+        self.conns.borrow()[side].clone().expect("connection established")
+    }
+
+    fn spawn(&self, name: String, side: usize, kind: Kind, f: impl FnOnce(Rc<Cell<Kind>>) -> ActorFut) {
+        let k = Rc::new(Cell::new(kind));
+        let fut = f(k.clone());
+        self.spawn.borrow_mut().push((name, side, k, fut));
+        // make sure the harness loop runs again to adopt the new actor
+        self.main.wake_by_ref();
+    }
+}
+
+fn family(e: &ConnectionError) -> String {
+    match e {
+        ConnectionError::LocallyClosed => "LocallyClosed".into(),
+        ConnectionError::ApplicationClosed(_) => "ApplicationClosed".into(),
+        ConnectionError::ConnectionClosed(_) => "ConnectionClosed".into(),
+        ConnectionError::TimedOut => "TimedOut".into(),
+        ConnectionError::Reset => "Reset".into(),
+        other => format!("{other:?}").chars().take_while(|c| c.is_ascii_alphanumeric()).collect(),
+    }
+}
+
+fn io_family(e: &std::io::Error) -> End {
+    // compio-io trait methods wrap WriteError/ReadError into io::Error
+    if let Some(inner) = e.get_ref() {
+        if let Some(w) = inner.downcast_ref::<compio_quic::WriteError>() {
+            return write_end(w.clone());
+        }
+        if let Some(r) = inner.downcast_ref::<compio_quic::ReadError>() {
+            return read_end(r.clone());
+        }
+    }
+    End::Bad("io-error".into(), format!("unexpected io error: {e}"))
+}
+
+fn write_end(e: compio_quic::WriteError) -> End {
+    match e {
+        compio_quic::WriteError::ConnectionLost(c) => End::ConnErr(family(&c)),
+        other => End::Bad("write-error".into(), format!("write failed: {other}")),
+    }
+}
+
+fn read_end(e: compio_quic::ReadError) -> End {
+    match e {
+        compio_quic::ReadError::ConnectionLost(c) => End::ConnErr(family(&c)),
+        other => End::Bad("read-error".into(), format!("read failed: {other}")),
+    }
+}
+
+/// yield to the harness once
+async fn yield_now() {
+    let mut done = false;
+    std::future::poll_fn(|cx| {
+        if done {
+            Poll::Ready(())
+        } else {
+            done = true;
+            cx.waker().wake_by_ref();
+            Poll::Pending
+        }
+    })
+    .await
+}
+
+thread_local! {
+    /// set once the close has been issued: pacing sleeps stop, so that no actor is waiting on a timer of
+    /// its own when the "every future completed" rule is evaluated
+    static NO_PACE: Cell<bool> = const { Cell::new(false) };
+}
+
+async fn pace(p: Pace, k: usize) {
+    if NO_PACE.with(|c| c.get()) {
+        return;
+    }
+    match p {
+        Pace::Eager => {}
+        Pace::Yield(n) => {
+            if k % (n.max(1) as usize) == 0 {
+                yield_now().await
+            }
+        }
+        Pace::Sleep(n) => {
+            if k % (n.max(1) as usize) == 0 {
+                compio_runtime::time::sleep(Duration::from_micros(300)).await
+            }
+        }
+    }
+}
+
+// ------------------------------------------------------------------------------------------------
+// stream writers / readers
+
+/// write `data` with the cyclic op list, then finish (or leave it to drop)
+async fn write_payload(send: &mut SendStream, data: &[u8], ops: &[WOp], p: Pace) -> Result<(), End> {
+    let mut off = 0usize;
+    let mut k = 0usize;
+    let default_ops = [WOp::WriteAll(u16::MAX)];
+    let ops = if ops.is_empty() { &default_ops[..] } else { ops };
+    while off < data.len() {
+        let rest = &data[off..];
+        match &ops[k % ops.len()] {
+            WOp::Write(n) => {
+                let n = (*n as usize).clamp(1, rest.len());
+                let compio_buf::BufResult(r, _) = send.write(rest[..n].to_vec()).await;
+                let w = r.map_err(|e| io_family(&e))?;
+                if w == 0 || w > n {
+                    return Err(End::Bad("write-count".into(), format!("write of {n} bytes reported {w}")));
+                }
+                off += w;
+            }
+            WOp::WriteAll(n) => {
+                let n = (*n as usize).clamp(1, rest.len());
+                let compio_buf::BufResult(r, _) = send.write_all(rest[..n].to_vec()).await;
+                r.map_err(|e| io_family(&e))?;
+                off += n;
+            }
+            WOp::Chunks(sizes) | WOp::AllChunks(sizes) => {
+                let mut bufs: Vec<Bytes> = vec![];
+                let mut o = 0;
+                for s in sizes {
+                    let s = (*s as usize).min(rest.len() - o);
+                    bufs.push(Bytes::copy_from_slice(&rest[o..o + s]));
+                    o += s;
+                    if o == rest.len() {
+                        break;
+                    }
+                }
+                if o == 0 {
+                    bufs = vec![Bytes::copy_from_slice(&rest[..1])];
+                    o = 1;
+                }
+                if matches!(&ops[k % ops.len()], WOp::AllChunks(_)) {
+                    send.write_all_chunks(&mut bufs).await.map_err(write_end)?;
+                    off += o;
+                } else {
+                    let w = send.write_chunks(&mut bufs).await.map_err(write_end)?;
+                    if w.bytes > o || (w.bytes == 0 && o > 0) {
+                        return Err(End::Bad("write-count".into(), format!("write_chunks of {o} bytes reported {}", w.bytes)));
+                    }
+                    off += w.bytes;
+                }
+            }
+        }
+        k += 1;
+        pace(p, k).await;
+    }
+    Ok(())
+}
+
+/// read to the end of the stream with the cyclic op list, verifying every byte against `want`
+async fn read_payload(recv: &mut RecvStream, want: &[u8], ops: &[ROp], p: Pace, mut progress: impl FnMut(u64)) -> Result<(), End> {
+    let mut off = 0usize;
+    let mut k = 0usize;
+    let default_ops = [ROp::Read(4096)];
+    let ops = if ops.is_empty() { &default_ops[..] } else { ops };
+    let check = |off: usize, got: &[u8]| -> Result<(), End> {
+        if off + got.len() > want.len() {
+            return Err(End::Bad("stream/extra-bytes".into(), format!("{} bytes at offset {off} but only {} were written", got.len(), want.len())));
+        }
+        if got != &want[off..off + got.len()] {
+            let j = (0..got.len()).find(|&j| got[j] != want[off + j]).unwrap();
+            return Err(End::Bad("stream/data-mismatch".into(), format!("byte {} is {:#04x}, written {:#04x}", off + j, got[j], want[off + j])));
+        }
+        Ok(())
+    };
+    loop {
+        let eof = match &ops[k % ops.len()] {
+            ROp::Read(cap) => {
+                let cap = (*cap as usize).max(1);
+                let compio_buf::BufResult(r, buf) = recv.read(Vec::with_capacity(cap)).await;
+                let n = r.map_err(|e| io_family(&e))?;
+                if n != buf.len() {
+                    return Err(End::Bad("read-count".into(), format!("read reported {n} but the buffer holds {}", buf.len())));
+                }
+                check(off, &buf)?;
+                off += n;
+                progress(n as u64);
+                n == 0
+            }
+            ROp::Chunk(max) => match recv.read_chunk((*max as usize).max(1), true).await.map_err(read_end)? {
+                Some(c) => {
+                    if c.offset != off as u64 {
+                        return Err(End::Bad("stream/chunk-offset".into(), format!("ordered chunk at offset {} while {off} bytes were delivered", c.offset)));
+                    }
+                    if c.bytes.len() > (*max as usize).max(1) || c.bytes.is_empty() {
+                        return Err(End::Bad("read-count".into(), format!("chunk of {} bytes for max_length {}", c.bytes.len(), max)));
+                    }
+                    check(off, &c.bytes)?;
+                    off += c.bytes.len();
+                    progress(c.bytes.len() as u64);
+                    false
+                }
+                None => true,
+            },
+            ROp::Chunks(n) => {
+                let mut bufs = vec![Bytes::new(); (*n as usize).max(1)];
+                match recv.read_chunks(&mut bufs).await.map_err(read_end)? {
+                    Some(m) => {
+                        if m == 0 || m > bufs.len() {
+                            return Err(End::Bad("read-count".into(), format!("read_chunks filled {m} of {} buffers", bufs.len())));
+                        }
+                        for b in &bufs[..m] {
+                            check(off, b)?;
+                            off += b.len();
+                            progress(b.len() as u64);
+                        }
+                        false
+                    }
+                    None => true,
+                }
+            }
+            ROp::ToEnd => {
+                let compio_buf::BufResult(r, buf) = recv.read_to_end(Vec::new()).await;
+                let n = r.map_err(|e| io_family(&e))?;
+                if n != buf.len() {
+                    return Err(End::Bad("read-count".into(), format!("read_to_end reported {n} but the buffer holds {}", buf.len())));
+                }
+                check(off, &buf)?;
+                off += n;
+                progress(n as u64);
+                true
+            }
+        };
+        if eof {
+            break;
+        }
+        k += 1;
+        pace(p, k).await;
+    }
+    if off != want.len() {
+        return Err(End::Bad("stream/early-eof".into(), format!("end of stream after {off} of {} bytes", want.len())));
+    }
+    Ok(())
+}
+
+fn end_of(r: Result<(), End>) -> End {
+    match r {
+        Ok(()) => End::Done,
+        Err(e) => e,
+    }
+}
+
+/// the side that opens stream `i`
+fn opener(ctx: Rc<Ctx>, i: usize, kind: Rc<Cell<Kind>>) -> ActorFut {
+    Box::pin(async move {
+        let spec = ctx.case.streams[i].clone();
+        let side = if spec.by_client { 0 } else { 1 };
+        let conn = ctx.conn(side);
+        kind.set(Kind::OpenWait);
+        let (mut send, recv) = if spec.bidi {
+            match conn.open_bi_wait().await {
+                Ok((s, r)) => (s, Some(r)),
+                Err(e) => return End::ConnErr(family(&e)),
+            }
+        } else {
+            match conn.open_uni_wait().await {
+                Ok(s) => (s, None),
+                Err(e) => return End::ConnErr(family(&e)),
+            }
+        };
+        ctx.table.borrow_mut().insert((side, spec.bidi, send.id().index()), Entry::Spec(i));
+        kind.set(Kind::Writer);
+        let data = payload(i, false, spec.len());
+        let wr = async {
+            write_payload(&mut send, &data, &spec.wops, spec.wpace).await?;
+            if spec.finish {
+                if let Err(e) = send.finish() {
+                    return Err(End::Bad("finish-error".into(), format!("finish: {e}")));
+                }
+                // completes when the peer has received everything
+                match send.stopped().await {
+                    Ok(None) => {}
+                    Ok(Some(c)) => return Err(End::Bad("stopped-code".into(), format!("stopped() yields stop code {c} although the peer never stops streams"))),
+                    Err(compio_quic::StoppedError::ConnectionLost(e)) => return Err(End::ConnErr(family(&e))),
+                    Err(e) => return Err(End::Bad("stopped-error".into(), format!("{e}"))),
+                }
+            }
+            drop(send);
+            Ok(())
+        };
+        let rd = async {
+            if let Some(mut recv) = recv {
+                let want = payload(i, true, spec.resp_len());
+                let c2 = ctx.clone();
+                let r = read_payload(&mut recv, &want, &spec.rops, spec.rpace, |n| {
+                    c2.got.borrow_mut()[i][1] += n;
+                    c2.bytes_read.set(c2.bytes_read.get() + n);
+                })
+                .await;
+                if r.is_ok() {
+                    ctx.complete.borrow_mut()[i][1] = true;
+                }
+                r
+            } else {
+                Ok(())
+            }
+        };
+        let (a, b) = futures_util::future::join(wr, rd).await;
+        // a definite violation wins over a connection error
+        match (a, b) {
+            (Err(e @ End::Bad(..)), _) | (_, Err(e @ End::Bad(..))) => e,
+            (Err(e), _) | (_, Err(e)) => e,
+            _ => End::Done,
+        }
+    })
+}
+
+/// the accepting side's handling of one incoming stream
+fn acceptor_stream(ctx: Rc<Ctx>, side: usize, bidi: bool, send: Option<SendStream>, mut recv: RecvStream, kind: Rc<Cell<Kind>>) -> ActorFut {
+    Box::pin(async move {
+        let key = (1 - side, bidi, recv.id().index());
+        let entry = ctx.table.borrow().get(&key).cloned();
+        match entry {
+            None => End::Bad("stream/unknown".into(), format!("accepted a {} stream with index {} that the peer never opened", if bidi { "bidirectional" } else { "unidirectional" }, key.2)),
+            Some(Entry::ProbeHeld) => {
+                // becomes visible only if its holder got another stream and dropped this one: empty and finished
+                let compio_buf::BufResult(r, buf) = recv.read(Vec::with_capacity(8)).await;
+                match r {
+                    Ok(0) => End::Done,
+                    Ok(n) => End::Bad("stream/extra-bytes".into(), format!("{n} bytes ({:?}) on a stream that was never written", &buf[..n.min(8)])),
+                    Err(e) => io_family(&e),
+                }
+            }
+            Some(Entry::ProbeIdle) => {
+                let mut c = ctx.probe_streams.get();
+                c[1] += 1;
+                ctx.probe_streams.set(c);
+                // one byte was written and nothing else will ever come: a read that stays pending
+                kind.set(Kind::IdleRead);
+                let mut seen = 0usize;
+                loop {
+                    let compio_buf::BufResult(r, buf) = recv.read(Vec::with_capacity(8)).await;
+                    match r {
+                        Ok(0) => return End::Bad("stream/early-eof".into(), "probe stream ended although its writer neither finished nor dropped it".into()),
+                        Ok(n) => {
+                            seen += n;
+                            if seen > 1 || buf[0] != 0xA5 {
+                                return End::Bad("stream/data-mismatch".into(), format!("probe stream delivered {seen} bytes / {:#04x}, written: one byte 0xa5", buf[0]));
+                            }
+                        }
+                        Err(e) => return io_family(&e),
+                    }
+                }
+            }
+            Some(Entry::ProbeBlocked) => {
+                let mut c = ctx.probe_streams.get();
+                c[1] += 1;
+                ctx.probe_streams.set(c);
+                // never read: the writer runs into the flow-control window; wait for a reset that never comes
+                kind.set(Kind::ReceivedReset);
+                match recv.received_reset().await {
+                    Ok(x) => End::Bad("received_reset".into(), format!("received_reset() yields {x:?} on a stream that is neither reset nor finished")),
+                    Err(compio_quic::ResetError::ConnectionLost(e)) => End::ConnErr(family(&e)),
+                    Err(e) => End::Bad("received_reset".into(), format!("{e}")),
+                }
+            }
+            Some(Entry::Spec(i)) => {
+                let spec = ctx.case.streams[i].clone();
+                let want = payload(i, false, spec.len());
+                let c2 = ctx.clone();
+                let rd = async {
+                    let r = read_payload(&mut recv, &want, &spec.rops, spec.rpace, |n| {
+                        c2.got.borrow_mut()[i][0] += n;
+                        c2.bytes_read.set(c2.bytes_read.get() + n);
+                    })
+                    .await;
+                    if r.is_ok() {
+                        ctx.complete.borrow_mut()[i][0] = true;
+                    }
+                    r
+                };
+                let wr = async {
+                    if let Some(mut send) = send {
+                        let data = payload(i, true, spec.resp_len());
+                        write_payload(&mut send, &data, &spec.wops, spec.wpace).await?;
+                        if spec.finish {
+                            send.finish().map_err(|e| End::Bad("finish-error".into(), format!("finish: {e}")))?;
+                        }
+                        drop(send);
+                    }
+                    Ok(())
+                };
+                let (a, b) = futures_util::future::join(rd, wr).await;
+                match (a, b) {
+                    (Err(e @ End::Bad(..)), _) | (_, Err(e @ End::Bad(..))) => e,
+                    (Err(e), _) | (_, Err(e)) => e,
+                    _ => End::Done,
+                }
+            }
+        }
+    })
+}
+
+fn accept_loop(ctx: Rc<Ctx>, side: usize, bidi: bool) -> ActorFut {
+    Box::pin(async move {
+        let conn = ctx.conn(side);
+        let mut n = 0;
+        loop {
+            if bidi {
+                match conn.accept_bi().await {
+                    Ok((s, r)) => {
+                        let c = ctx.clone();
+                        ctx.spawn(format!("{}:bi-stream#{n}", SIDES[side]), side, Kind::Reader, move |k| acceptor_stream(c, side, true, Some(s), r, k));
+                    }
+                    Err(e) => return End::ConnErr(family(&e)),
+                }
+            } else {
+                match conn.accept_uni().await {
+                    Ok(r) => {
+                        let c = ctx.clone();
+                        ctx.spawn(format!("{}:uni-stream#{n}", SIDES[side]), side, Kind::Reader, move |k| acceptor_stream(c, side, false, None, r, k));
+                    }
+                    Err(e) => return End::ConnErr(family(&e)),
+                }
+            }
+            n += 1;
+        }
+    })
+}
+
+// ------------------------------------------------------------------------------------------------
+// datagrams
+
+fn dgram_sender(ctx: Rc<Ctx>, side: usize) -> ActorFut {
+    Box::pin(async move {
+        let conn = ctx.conn(side);
+        let max = conn.max_datagram_size().unwrap_or(0);
+        for (j, raw) in ctx.case.dgrams[side].iter().enumerate() {
+            let len = dgram_len(*raw).min(max.saturating_sub(8));
+            if len < 4 {
+                continue;
+            }
+            let d = Bytes::from(datagram(side, j, len));
+            match conn.send_datagram_wait(d).await {
+                Ok(()) => {}
+                Err(compio_quic::SendDatagramError::ConnectionLost(e)) => return End::ConnErr(family(&e)),
+                Err(e) => return End::Bad("datagram/send-error".into(), format!("send_datagram_wait({len} bytes, max {max}): {e}")),
+            }
+            yield_now().await;
+        }
+        End::Done
+    })
+}
+
+fn dgram_receiver(ctx: Rc<Ctx>, side: usize) -> ActorFut {
+    Box::pin(async move {
+        let conn = ctx.conn(side);
+        let mut seen = std::collections::HashSet::new();
+        loop {
+            match conn.recv_datagram().await {
+                Ok(d) => {
+                    // [sender side, index lo, index hi, len check] + position coded body
+                    if d.len() < 4 {
+                        return End::Bad("datagram/not-sent".into(), format!("a datagram of {} bytes arrived, none that short was sent", d.len()));
+                    }
+                    let j = d[1] as usize | (d[2] as usize) << 8;
+                    let sender = 1 - side;
+                    if d[0] as usize != sender || j >= ctx.case.dgrams[sender].len() {
+                        return End::Bad("datagram/not-sent".into(), format!("datagram header {:?} matches nothing the peer sent", &d[..4]));
+                    }
+                    if datagram(sender, j, d.len()) != d[..] {
+                        return End::Bad("datagram/corrupt".into(), format!("datagram #{j} ({} bytes) differs from what was sent", d.len()));
+                    }
+                    if !seen.insert(j) {
+                        return End::Bad("datagram/duplicate".into(), format!("datagram #{j} delivered twice"));
+                    }
+                    let mut c = ctx.dgrams_ok.get();
+                    c[side] += 1;
+                    ctx.dgrams_ok.set(c);
+                }
+                Err(e) => return End::ConnErr(family(&e)),
+            }
+        }
+    })
+}
+
+// ------------------------------------------------------------------------------------------------
+// probes: futures that are pending when the close happens
+
+fn probe(ctx: Rc<Ctx>, side: usize, p: Probe, kind: Rc<Cell<Kind>>) -> Option<ActorFut> {
+    let conn = ctx.conn(side);
+    let limit = |bidi: bool| {
+        let c = if side == 0 { &ctx.case.cfg[1] } else { &ctx.case.cfg[0] };
+        (if bidi { c.max_bidi } else { c.max_uni }) as usize
+    };
+    Some(match p {
+        Probe::OpenWaitAtLimit { bidi } => {
+            // take every stream the peer allows (non-waiting), then wait for one more
+            let mut held: Vec<(SendStream, Option<RecvStream>)> = vec![];
+            for _ in 0..limit(bidi) + 1 {
+                if bidi {
+                    match conn.open_bi() {
+                        Ok((s, r)) => held.push((s, Some(r))),
+                        Err(_) => break,
+                    }
+                } else {
+                    match conn.open_uni() {
+                        Ok(s) => held.push((s, None)),
+                        Err(_) => break,
+                    }
+                }
+                let id = held.last().unwrap().0.id().index();
+                ctx.table.borrow_mut().insert((side, bidi, id), Entry::ProbeHeld);
+            }
+            if held.len() > limit(bidi) {
+                return None; // the limit was not reached (credits returned meanwhile): no probe
+            }
+            kind.set(Kind::OpenWait);
+            Box::pin(async move {
+                // (if credit arrives after all, the extra stream is dropped unwritten like the held ones)
+                let r = if bidi {
+                    conn.open_bi_wait().await.map(|(s, _r)| {
+                        ctx.table.borrow_mut().insert((side, bidi, s.id().index()), Entry::ProbeHeld);
+                    })
+                } else {
+                    conn.open_uni_wait().await.map(|s| {
+                        ctx.table.borrow_mut().insert((side, bidi, s.id().index()), Entry::ProbeHeld);
+                    })
+                };
+                drop(held);
+                match r {
+                    Ok(()) => End::Done,
+                    Err(e) => End::ConnErr(family(&e)),
+                }
+            })
+        }
+        Probe::IdleStream { bidi } => {
+            // a stream whose reader on the peer stays pending and whose `stopped()` stays pending here
+            let (mut s, r) = if bidi {
+                match conn.open_bi() {
+                    Ok((s, r)) => (s, Some(r)),
+                    Err(_) => return None,
+                }
+            } else {
+                match conn.open_uni() {
+                    Ok(s) => (s, None),
+                    Err(_) => return None,
+                }
+            };
+            ctx.table.borrow_mut().insert((side, bidi, s.id().index()), Entry::ProbeIdle);
+            let mut c = ctx.probe_streams.get();
+            c[0] += 1;
+            ctx.probe_streams.set(c);
+            kind.set(Kind::Stopped);
+            Box::pin(async move {
+                let compio_buf::BufResult(w, _) = s.write_all(vec![0xA5u8]).await;
+                if let Err(e) = w {
+                    return io_family(&e);
+                }
+                let _keep = r;
+                match s.stopped().await {
+                    Ok(x) => End::Bad("stopped".into(), format!("stopped() yields {x:?} although the stream was neither finished nor stopped")),
+                    Err(compio_quic::StoppedError::ConnectionLost(e)) => End::ConnErr(family(&e)),
+                    Err(e) => End::Bad("stopped-error".into(), format!("{e}")),
+                }
+            })
+        }
+        Probe::BlockedWrite => {
+            // only meaningful when the peer's stream window is small enough to be filled quickly
+            let peer = if side == 0 { &ctx.case.cfg[1] } else { &ctx.case.cfg[0] };
+            let win = peer.stream_window().min(peer.conn_window());
+            if win > 64 * 1024 {
+                return None;
+            }
+            let mut s = match conn.open_uni() {
+                Ok(s) => s,
+                Err(_) => return None,
+            };
+            ctx.table.borrow_mut().insert((side, false, s.id().index()), Entry::ProbeBlocked);
+            let mut c = ctx.probe_streams.get();
+            c[0] += 1;
+            ctx.probe_streams.set(c);
+            kind.set(Kind::BlockedWrite);
+            Box::pin(async move {
+                let total = (win as usize) * 3 + 70_000;
+                let compio_buf::BufResult(w, _) = s.write_all(vec![0x5Au8; total]).await;
+                match w {
+                    Ok(()) => End::Bad("flow-control".into(), format!("{total} bytes were accepted on a stream whose reader never read and whose window is {win}")),
+                    Err(e) => io_family(&e),
+                }
+            })
+        }
+        Probe::Closed => {
+            kind.set(Kind::Closed);
+            Box::pin(async move {
+                let e = conn.closed().await;
+                End::ConnErr(family(&e))
+            })
+        }
+    })
+}
+
+const SIDES: [&str; 2] = ["client", "server"];
+
+/// poll an actor; a panic inside compio-quic becomes a violation with a stable signature
+fn poll_actor(a: &mut Actor, cx: &mut Context<'_>) -> Poll<End> {
+    let kind = a.kind.get();
+    let fut = a.fut.as_mut().unwrap();
+    match std::panic::catch_unwind(std::panic::AssertUnwindSafe(|| fut.as_mut().poll(cx))) {
+        Ok(p) => p,
+        Err(e) => {
+            let msg = e.downcast_ref::<String>().cloned().or_else(|| e.downcast_ref::<&str>().map(|s| s.to_string())).unwrap_or_default();
+            if kind == Kind::Closed && msg.contains("unwrap_err") {
+                // known finding: Connection::closed() takes the driver's JoinHandle; a second concurrent call finds
+                // none and unwraps the error of a connection that is still open
+                return Poll::Ready(End::Bad("closed/second-concurrent-call-panics".into(), format!("closed() on a clone while another closed() is pending: {}", msg.chars().take(120).collect::<String>())));
+            }
+            let head: String = msg.chars().take_while(|c| *c != ':').take(60).collect();
+            Poll::Ready(End::Bad(format!("panic/{}/{}", kind.name(), head), format!("panicked while polled: {}", msg.chars().take(300).collect::<String>())))
+        }
+    }
+}
+
+// ------------------------------------------------------------------------------------------------
+// the harness future
+
+const WATCHDOG: Duration = Duration::from_secs(90);
+/// no actor was polled for this long although work is outstanding: apply the rescue stimuli
+const STALL: Duration = Duration::from_secs(8);
+
+struct Pems {
+    ca: Vec<u8>,
+    leaf: Vec<u8>,
+    key: Vec<u8>,
+}
+
+fn transport(c: &TCfg) -> TransportConfig {
+    let mut t = TransportConfig::default();
+    t.receive_window(VarInt::from_u32(c.conn_window().min(u32::MAX as u64) as u32));
+    t.stream_receive_window(VarInt::from_u32(c.stream_window().min(u32::MAX as u64) as u32));
+    t.send_window(c.send_window());
+    t.max_concurrent_uni_streams(VarInt::from_u32(c.max_uni as u32));
+    t.max_concurrent_bidi_streams(VarInt::from_u32(c.max_bidi as u32));
+    t.max_idle_timeout(Some(Duration::from_secs(30).try_into().unwrap()));
+    t.initial_rtt(Duration::from_millis(20));
+    t
+}
+
+enum Verdict {
+    Pass { labels: Vec<String>, nontrivial: bool },
+    Violation(String, String),
+    Inconclusive(String),
+}
+
+async fn run_case(case: QCase, pems: &Pems) -> Verdict {
+    // ---- endpoints with the fixture certificates
+    let provider = Arc::new(rustls::crypto::ring::default_provider());
+    let leaf = CertificateDer::from_pem_slice(&pems.leaf).expect("leaf pem");
+    let ca = CertificateDer::from_pem_slice(&pems.ca).expect("ca pem");
+    let key = PrivateKeyDer::from_pem_slice(&pems.key).expect("key pem");
+    let scfg = rustls::ServerConfig::builder_with_provider(provider.clone())
+        .with_protocol_versions(&[&rustls::version::TLS13])
+        .expect("tls13")
+        .with_no_client_auth()
+        .with_single_cert(vec![leaf], key)
+        .expect("server cert");
+    let mut server_config = ServerBuilder::new_with_rustls_server_config(scfg).build();
+    server_config.transport_config(Arc::new(transport(&case.cfg[1])));
+    let mut roots = rustls::RootCertStore::empty();
+    roots.add(ca).expect("ca");
+    let ccfg = rustls::ClientConfig::builder_with_provider(provider).with_protocol_versions(&[&rustls::version::TLS13]).expect("tls13").with_root_certificates(roots).with_no_client_auth();
+    let mut client_config = ClientBuilder::new_with_rustls_client_config(ccfg).build();
+    client_config.transport_config(Arc::new(transport(&case.cfg[0])));
+
+    let server = match Endpoint::server("127.0.0.1:0", server_config).await {
+        Ok(e) => e,
+        Err(e) => return Verdict::Inconclusive(format!("bind server: {e}")),
+    };
+    let client = match Endpoint::client("127.0.0.1:0").await {
+        Ok(e) => e,
+        Err(e) => return Verdict::Inconclusive(format!("bind client: {e}")),
+    };
+    let server_addr = server.local_addr().expect("addr");
+
+    let main = Arc::new(Flag { set: AtomicBool::new(true), main: Mutex::new(None) });
+    let n = case.streams.len();
+    let ctx = Rc::new(Ctx {
+        case: case.clone(),
+        conns: RefCell::new([None, None]),
+        table: RefCell::new(HashMap::new()),
+        spawn: RefCell::new(vec![]),
+        bytes_read: Cell::new(0),
+        got: RefCell::new(vec![[0; 2]; n]),
+        complete: RefCell::new(vec![[false; 2]; n]),
+        dgrams_ok: Cell::new([0; 2]),
+        closed_seen: Cell::new(false),
+        probe_streams: Cell::new([0; 2]),
+        main: main.clone(),
+    });
+
+    // ---- handshake (both sides at once), guarded by the watchdog only
+    let hs = async {
+        let c = async { client.connect(server_addr, "localhost", Some(client_config)).map_err(|e| format!("connect: {e}"))?.await.map_err(|e| format!("client handshake: {e}")) };
+        let s = async {
+            match server.wait_incoming().await {
+                Some(i) => i.await.map_err(|e| format!("server handshake: {e}")),
+                None => Err("wait_incoming yielded None".to_string()),
+            }
+        };
+        let (c, s) = futures_util::future::join(c, s).await;
+        Ok::<_, String>((c?, s?))
+    };
+    let (cc, sc) = match compio_runtime::time::timeout(WATCHDOG, hs).await {
+        Err(_) => return Verdict::Inconclusive("handshake did not finish within the watchdog".into()),
+        Ok(Err(e)) => return Verdict::Violation("C16/handshake/error".into(), e),
+        Ok(Ok(p)) => p,
+    };
+    *ctx.conns.borrow_mut() = [Some(cc), Some(sc)];
+
+    // ---- actors
+    let mut actors: Vec<Actor> = vec![];
+    let add = |actors: &mut Vec<Actor>, name: String, side: usize, kind: Rc<Cell<Kind>>, fut: ActorFut| {
+        actors.push(Actor { name, side, kind, fut: Some(fut), flag: Arc::new(Flag { set: AtomicBool::new(true), main: Mutex::new(None) }), end: None, polls: 0, rescued: false });
+    };
+    let mk = |k: Kind| Rc::new(Cell::new(k));
+    // a server-side wait_incoming that stays pending until the endpoint is closed is not a connection
+    // future; the accept loops, datagram receivers and closed() watchers are always there
+    for side in 0..2 {
+        add(&mut actors, format!("{}:accept_uni", SIDES[side]), side, mk(Kind::Accept), accept_loop(ctx.clone(), side, false));
+        add(&mut actors, format!("{}:accept_bi", SIDES[side]), side, mk(Kind::Accept), accept_loop(ctx.clone(), side, true));
+        add(&mut actors, format!("{}:recv_datagram", SIDES[side]), side, mk(Kind::RecvDatagram), dgram_receiver(ctx.clone(), side));
+        let k = mk(Kind::Closed);
+        let f = probe(ctx.clone(), side, Probe::Closed, k.clone()).unwrap();
+        add(&mut actors, format!("{}:closed", SIDES[side]), side, k, f);
+    }
+    let watcher = [3usize, 7usize]; // indices of the two closed() watchers above
+    let transfer_start = actors.len();
+    for (i, s) in case.streams.iter().enumerate() {
+        let side = if s.by_client { 0 } else { 1 };
+        let k = mk(Kind::OpenWait);
+        add(&mut actors, format!("{}:open-stream[{i}]", SIDES[side]), side, k.clone(), opener(ctx.clone(), i, k));
+    }
+    for side in 0..2 {
+        if !case.dgrams[side].is_empty() {
+            add(&mut actors, format!("{}:datagram-sender", SIDES[side]), side, mk(Kind::DgramSend), dgram_sender(ctx.clone(), side));
+        }
+    }
+    let transfer_end = actors.len();
+    let mut timer: Option<ActorFut> = Some(Box::pin(async {
+        compio_runtime::time::sleep(WATCHDOG).await;
+        End::Done
+    }));
+    let timer_flag = Arc::new(Flag { set: AtomicBool::new(true), main: Mutex::new(None) });
+    let mut stall: ActorFut = Box::pin(async {
+        compio_runtime::time::sleep(STALL).await;
+        End::Done
+    });
+    let stall_flag = Arc::new(Flag { set: AtomicBool::new(true), main: Mutex::new(None) });
+
+    #[derive(PartialEq, Clone, Copy, Debug)]
+    enum St {
+        Running,
+        ProbesUp,
+        Closing,
+    }
+    let mut st = St::Running;
+    let total_expected: u64 = case.streams.iter().map(|s| s.len() as u64 + if s.bidi { s.resp_len() as u64 } else { 0 }).sum();
+    let threshold = match case.close.when {
+        When::Before => 0,
+        When::During(f) => total_expected * (f as u64) / 256,
+        When::After => u64::MAX,
+    };
+    let mut pending_at_close: Vec<Kind> = vec![];
+    // how long the close waits for the peer to take up the probe streams: decides when the close is issued,
+    // never a verdict
+    let mut grace: Option<ActorFut> = None;
+    let grace_flag = Arc::new(Flag { set: AtomicBool::new(false), main: Mutex::new(None) });
+    let mut grace_done = false;
+    let mut judged = [false; 2];
+    let mut stalled_rescue = false;
+    let mut polled_since_stall = false;
+    let mut failure: Option<(String, String)> = None;
+    let mut inconclusive: Option<String> = None;
+    let closer = if case.close.by_client { 0 } else { 1 };
+    let code = 0x2a_u32;
+
+    std::future::poll_fn(|cx| {
+        *main.main.lock().unwrap() = Some(cx.waker().clone());
+        loop {
+            let mut progressed = false;
+            // adopt actors spawned by accept loops
+            for (name, side, kind, fut) in ctx.spawn.borrow_mut().drain(..) {
+                actors.push(Actor { name, side, kind, fut: Some(fut), flag: Arc::new(Flag { set: AtomicBool::new(true), main: Mutex::new(None) }), end: None, polls: 0, rescued: false });
+                progressed = true;
+            }
+            for a in actors.iter_mut() {
+                if a.fut.is_some() && a.flag.set.swap(false, Ordering::SeqCst) {
+                    *a.flag.main.lock().unwrap() = Some(cx.waker().clone());
+                    let w = Waker::from(a.flag.clone());
+                    let mut acx = Context::from_waker(&w);
+                    a.polls += 1;
+                    progressed = true;
+                    polled_since_stall = true;
+                    if let Poll::Ready(e) = poll_actor(a, &mut acx) {
+                        a.fut = None;
+                        a.end = Some(e);
+                    }
+                }
+            }
+            // a definite violation reported by an actor ends the case
+            if failure.is_none() {
+                for a in actors.iter() {
+                    if let Some(End::Bad(sig, detail)) = &a.end {
+                        failure = Some((format!("C16/{sig}"), format!("{}: {detail}", a.name)));
+                        break;
+                    }
+                    // a connection error before anybody closed anything
+                    if let (Some(End::ConnErr(f)), true) = (&a.end, st != St::Closing) {
+                        if f == "TimedOut" {
+                            // the idle timeout is a wall-clock event (a starved process can produce it): never a verdict
+                            inconclusive = Some(format!("{} hit the 30 s idle timeout before the close", a.name));
+                            return Poll::Ready(());
+                        }
+                        failure = Some((format!("C16/connection-lost-before-close/{f}"), format!("{} failed with {f} although nobody had closed the connection", a.name)));
+                        break;
+                    }
+                }
+            }
+            if failure.is_some() {
+                return Poll::Ready(());
+            }
+            // ---- state machine
+            match st {
+                St::Running => {
+                    let transfer_done = actors[transfer_start..transfer_end].iter().all(|a| a.fut.is_none())
+                        && actors[transfer_end..].iter().all(|a| a.fut.is_none())
+                        && ctx.spawn.borrow().is_empty()
+                        && (0..n).all(|i| ctx.complete.borrow()[i][0] && (!case.streams[i].bidi || ctx.complete.borrow()[i][1]));
+                    if ctx.bytes_read.get() >= threshold || transfer_done {
+                        // set up the probe futures and poll each once
+                        for side in 0..2 {
+                            for (j, p) in case.probes[side].iter().enumerate() {
+                                let k = mk(Kind::Timer);
+                                if let Some(f) = probe(ctx.clone(), side, *p, k.clone()) {
+                                    actors.push(Actor { name: format!("{}:probe[{j}]:{p:?}", SIDES[side]), side, kind: k, fut: Some(f), flag: Arc::new(Flag { set: AtomicBool::new(true), main: Mutex::new(None) }), end: None, polls: 0, rescued: false });
+                                }
+                            }
+                        }
+                        st = St::ProbesUp;
+                        progressed = true;
+                    }
+                }
+                St::ProbesUp => {
+                    // the pass above polled every new probe once (a blocked writer fills its window without a
+                    // round trip, so it is pending by now).  Give the peer the chance to take up the probe streams
+                    // (bounded by harness passes, not by time), then close whatever else is in flight
+                    let ps = ctx.probe_streams.get();
+                    let grace_over = match grace.as_mut() {
+                        None => {
+                            grace = Some(Box::pin(async {
+                                compio_runtime::time::sleep(Duration::from_millis(40)).await;
+                                End::Done
+                            }));
+                            grace_flag.set.store(true, Ordering::SeqCst);
+                            false
+                        }
+                        Some(g) => {
+                            if grace_flag.set.swap(false, Ordering::SeqCst) {
+                                *grace_flag.main.lock().unwrap() = Some(cx.waker().clone());
+                                let w = Waker::from(grace_flag.clone());
+                                g.as_mut().poll(&mut Context::from_waker(&w)).is_ready()
+                            } else {
+                                false
+                            }
+                        }
+                    };
+                    grace_done |= grace_over;
+                    if grace.is_some() && !grace_done && ps[0] != ps[1] {
+                        // (first visit arms the timer: poll it right away so that its waker is registered)
+                        progressed |= grace_flag.set.load(Ordering::SeqCst);
+                    }
+                    if ps[0] == ps[1] || grace_done {
+                        pending_at_close = actors.iter().filter(|a| a.fut.is_some() && a.polls > 0).map(|a| a.kind.get()).collect();
+                        match case.close.what {
+                            What::Connection => ctx.conn(closer).close(VarInt::from_u32(code), b"c16"),
+                            What::Endpoint => (if closer == 0 { &client } else { &server }).close(VarInt::from_u32(code), b"c16"),
+                        }
+                        ctx.closed_seen.set(true);
+                        NO_PACE.with(|c| c.set(true));
+                        st = St::Closing;
+                        progressed = true;
+                    }
+                }
+                St::Closing => {
+                    for side in 0..2 {
+                        if judged[side] || actors[watcher[side]].fut.is_some() || progressed {
+                            continue;
+                        }
+                        // closed() resolved on this side and a full pass found nothing runnable: the connection
+                        // is demonstrably closed here, so every future of this side must be complete
+                        judged[side] = true;
+                        let mut stranded = vec![];
+                        for a in actors.iter_mut().filter(|a| a.side == side && a.fut.is_some()) {
+                            // rescue rule: one redundant poll
+                            let w = Waker::from(a.flag.clone());
+                            let mut acx = Context::from_waker(&w);
+                            a.polls += 1;
+                            match poll_actor(a, &mut acx) {
+                                Poll::Ready(e) => {
+                                    a.fut = None;
+                                    a.end = Some(e);
+                                    a.rescued = true;
+                                    stranded.push(format!("{} [{}] completed only when polled again", a.name, a.kind.get().name()));
+                                    if failure.is_none() {
+                                        failure = Some((format!("C16/close/not-woken/{}", a.kind.get().name()), String::new()));
+                                    }
+                                }
+                                Poll::Pending => {
+                                    stranded.push(format!("{} [{}] still pending after a redundant poll", a.name, a.kind.get().name()));
+                                    if failure.is_none() {
+                                        failure = Some((format!("C16/close/stranded/{}", a.kind.get().name()), String::new()));
+                                    }
+                                }
+                            }
+                        }
+                        if let Some((sig, d)) = &mut failure {
+                            if d.is_empty() {
+                                *d = format!("{} side, connection closed ({:?} by {}): {}", SIDES[side], case.close.what, SIDES[closer], stranded.join("; "));
+                                let _ = sig;
+                            }
+                            return Poll::Ready(());
+                        }
+                    }
+                    if judged[0] && judged[1] {
+                        return Poll::Ready(());
+                    }
+                }
+            }
+            if progressed {
+                continue;
+            }
+            // ---- nothing runnable: timers
+            if let Some(t) = timer.as_mut() {
+                if timer_flag.set.swap(false, Ordering::SeqCst) {
+                    *timer_flag.main.lock().unwrap() = Some(cx.waker().clone());
+                    let w = Waker::from(timer_flag.clone());
+                    if t.as_mut().poll(&mut Context::from_waker(&w)).is_ready() {
+                        timer = None;
+                        let waiting: Vec<String> = actors.iter().filter(|a| a.fut.is_some()).map(|a| format!("{}[{}]", a.name, a.kind.get().name())).collect();
+                        inconclusive = Some(format!("watchdog in state {st:?}; pending: {}", waiting.join(", ")));
+                        return Poll::Ready(());
+                    }
+                }
+            }
+            if stall_flag.set.swap(false, Ordering::SeqCst) {
+                *stall_flag.main.lock().unwrap() = Some(cx.waker().clone());
+                let w = Waker::from(stall_flag.clone());
+                if stall.as_mut().poll(&mut Context::from_waker(&w)).is_ready() {
+                    if polled_since_stall || st == St::Closing {
+                        // things are moving (or we are waiting for the drain period): re-arm
+                        polled_since_stall = false;
+                    } else if !stalled_rescue {
+                        // rescue rule while transferring: a redundant poll of every pending actor and a
+                        // redundant wake of both connection drivers
+                        stalled_rescue = true;
+                        let before = ctx.bytes_read.get();
+                        let mut woke = vec![];
+                        for a in actors.iter_mut().filter(|a| a.fut.is_some()) {
+                            let w = Waker::from(a.flag.clone());
+                            let was = a.kind.get();
+                            if let Poll::Ready(e) = poll_actor(a, &mut Context::from_waker(&w)) {
+                                a.fut = None;
+                                a.end = Some(e);
+                                woke.push(format!("{}[{}]", a.name, was.name()));
+                            } else if a.kind.get() != was {
+                                woke.push(format!("{}[{}]", a.name, was.name()));
+                            }
+                        }
+                        if !woke.is_empty() || ctx.bytes_read.get() != before {
+                            failure = Some(("C16/transfer/lost-wake".into(), format!("no actor ran for {STALL:?}; a redundant poll made progress: {}", woke.join(", "))));
+                            return Poll::Ready(());
+                        }
+                        for side in 0..2 {
+                            let c = &case.cfg[side];
+                            ctx.conn(side).set_max_concurrent_uni_streams(VarInt::from_u32(c.max_uni as u32));
+                        }
+                    }
+                    stall = Box::pin(async {
+                        compio_runtime::time::sleep(STALL).await;
+                        End::Done
+                    });
+                    stall_flag.set.store(true, Ordering::SeqCst);
+                    continue;
+                }
+            }
+            return Poll::Pending;
+        }
+    })
+    .await;
+
+    // ---- verdict
+    let transfer_rescued = stalled_rescue && failure.is_none() && inconclusive.is_none();
+    let mut labels: Vec<String> = vec![];
+    let verdict = if let Some((sig, detail)) = failure {
+        Verdict::Violation(sig, detail)
+    } else if let Some(why) = inconclusive {
+        Verdict::Inconclusive(why)
+    } else if transfer_rescued {
+        Verdict::Violation("C16/transfer/stalled-until-driver-woken".into(), format!("no actor ran for {STALL:?}; a redundant wake of the connection drivers resumed the transfer"))
+    } else {
+        // every actor completed; check their ends against the close
+        let mut bad = None;
+        for a in &actors {
+            match &a.end {
+                Some(End::ConnErr(f)) => {
+                    // (closing an endpoint closes its connection locally on that side as well)
+                    let ok = if a.side == closer { f == "LocallyClosed" } else { f == "ApplicationClosed" || f == "TimedOut" || f == "Reset" };
+                    if !ok {
+                        bad = Some((format!("C16/close/error-family/{}/{f}", if a.side == closer { "closer" } else { "peer" }), format!("{} ended with {f}", a.name)));
+                        break;
+                    }
+                    labels.push(format!("after-close:{}:{f}", a.kind.get().name()));
+                }
+                Some(End::Done) | Some(End::Bad(..)) => {}
+                None => {}
+            }
+        }
+        // data oracle for complete transfers (close after the transfer): everything arrived
+        if bad.is_none() && matches!(case.close.when, When::After) {
+            for i in 0..n {
+                let s = &case.streams[i];
+                let c = ctx.complete.borrow()[i];
+                if !c[0] || (s.bidi && !c[1]) {
+                    bad = Some(("C16/stream/incomplete".into(), format!("stream {i} was not delivered completely before the close after the transfer: {:?} of {}/{}", ctx.got.borrow()[i], s.len(), s.resp_len())));
+                    break;
+                }
+            }
+        }
+        match bad {
+            Some((s, d)) => Verdict::Violation(s, d),
+            None => {
+                let mut kinds: Vec<Kind> = pending_at_close.clone();
+                kinds.sort();
+                kinds.dedup();
+                for k in &kinds {
+                    labels.push(format!("pending-at-close:{}", k.name()));
+                }
+                labels.sort();
+                labels.dedup();
+                let when = match case.close.when {
+                    When::Before => "before",
+                    When::During(_) => "during",
+                    When::After => "after",
+                };
+                labels.push(format!("close:{when}/{:?}/by-{}", case.close.what, SIDES[closer]));
+                let small = |c: &TCfg, len: usize| (c.stream_window().min(c.conn_window()) as usize) < len;
+                let windowed = case.streams.iter().filter(|s| small(&case.cfg[if s.by_client { 1 } else { 0 }], s.len())).count();
+                if windowed >= 2 {
+                    labels.push("streams>=2-with-window<payload".into());
+                }
+                if case.streams.len() >= 2 {
+                    labels.push("concurrent-streams".into());
+                }
+                let d = ctx.dgrams_ok.get();
+                if d[0] + d[1] > 0 {
+                    labels.push("datagrams-delivered".into());
+                }
+                let stream_kinds = kinds.iter().filter(|k| !matches!(k, Kind::Accept | Kind::RecvDatagram | Kind::Closed)).count();
+                let nontrivial = windowed >= 2 || stream_kinds >= 2;
+                Verdict::Pass { labels, nontrivial }
+            }
+        }
+    };
+    // ---- teardown: everything is dropped, both endpoints shut down (must not hang either)
+    drop(actors);
+    *ctx.conns.borrow_mut() = [None, None];
+    ctx.table.borrow_mut().clear();
+    drop(ctx);
+    if !matches!(verdict, Verdict::Pass { .. }) {
+        // unfinished futures were dropped above (dropping a pending closed() cancels the connection driver,
+        // after which shutdown() cannot finish): leave the rest to the runtime drop
+        return verdict;
+    }
+    let down = async {
+        let a = client.shutdown().await;
+        let b = server.shutdown().await;
+        (a, b)
+    };
+    match compio_runtime::time::timeout(WATCHDOG, down).await {
+        Ok(_) => verdict,
+        Err(_) => match verdict {
+            Verdict::Pass { .. } => Verdict::Inconclusive("Endpoint::shutdown did not finish within the watchdog".into()),
+            v => v,
+        },
+    }
+}
+
+fn run(case: &QCase, pems: &Pems) -> Outcome {
+    let case = &case::bound(case.clone());
+    NO_PACE.with(|c| c.set(false));
+    let mut pb = compio_driver::ProactorBuilder::new();
+    pb.driver_type(if case.iour { compio_driver::DriverType::IoUring } else { compio_driver::DriverType::Poll });
+    let rt = match compio_runtime::RuntimeBuilder::new().with_proactor(pb).build() {
+        Ok(rt) => rt,
+        Err(e) => return Outcome::inconclusive(format!("runtime build: {e}")),
+    };
+    let v = rt.block_on(run_case(case.clone(), pems));
+    drop(rt);
+    match v {
+        Verdict::Pass { mut labels, nontrivial } => {
+            labels.push(format!("driver:{}", if case.iour { "io-uring" } else { "poll" }));
+            Outcome::pass_owned(nontrivial, labels)
+        }
+        Verdict::Violation(s, d) => Outcome::violation(s, d),
+        Verdict::Inconclusive(w) => Outcome::inconclusive(w),
+    }
+}
+
+fn main() {
+    let mut s = Session::new();
+    let dir = s.args.verif_dir.join("fixtures").join("tls");
+    let rd = |n: &str| match std::fs::read(dir.join(n)) {
+        Ok(b) => b,
+        Err(e) => {
+            eprintln!("c16: cannot read fixture {}: {e}", dir.join(n).display());
+            std::process::exit(2);
+        }
+    };
+    let pems = Pems { ca: rd("ca.cert.pem"), leaf: rd("leaf.cert.pem"), key: rd("leaf.key.pem") };
+    let mut p = Part::new(
+        "C16",
+        "quic",
+        "case = {driver; per side transport config {receive window, stream receive window, send window in {tiny 16-1000, small 1-100 KiB, \
+         default}, max concurrent uni/bidi streams 1-4}; 0-5 concurrent streams {opener, uni|bidi, payload 0-200 KiB position coded per \
+         stream (+ response for bidi), cyclic write ops (write, write_all, write_chunks, write_all_chunks with generated sizes), cyclic read \
+         ops (read(cap), read_chunk(max), read_chunks(n), read_to_end), writer/reader pacing (eager, yield, short sleeps), finish or \
+         implicit finish by drop}; 0-6 datagrams per side interleaved; probe futures per side set up just before the close \
+         (open_*_wait at the stream limit, idle stream with pending read + pending stopped(), write blocked on a never-read stream + \
+         pending received_reset(), extra closed()); close point {before | during at a generated fraction of the bytes | after the \
+         transfer} x {Connection::close | Endpoint::close} x {client | server}}. Every future is an actor polled by the harness. Oracle: \
+         per QUIC stream bytes read == bytes written in order, end of stream exactly after the last byte, no foreign bytes; datagrams \
+         received are a duplicate-free subset of those sent, each intact; once closed() resolved on a side every future of that side is \
+         complete, with LocallyClosed on the closing side and ApplicationClosed/TimedOut on the peer (a future that completes only on \
+         a redundant re-poll or stays pending is the violation); a stalled transfer is judged by the rescue rule. Non-trivial = >= 2 \
+         streams whose payload exceeds the receiver's window, or >= 2 different stream-level future kinds pending at the close.",
+    );
+    p.quick_cases = 96;
+    p.thorough_cases = 1500;
+    p.threads = 6;
+    p.max_shrink_iters = 8;
+    p.regressions = case::regressions();
+    p.assumptions = vec![
+        "loopback UDP delivers CONNECTION_CLOSE; if it does not, the peer side ends by idle timeout (30 s) and the case is still judged",
+        "quinn-proto, rustls are trusted; the check targets compio-quic's driver task and waker bookkeeping",
+    ];
+    s.run_part(p, case::strategy(), move |c| run(c, &pems));
+    s.finish();
+}
